@@ -1,2 +1,151 @@
-(* placeholder *)
-From GT Require Import Base.Prelude Model.Tokens Model.Parser Model.Printer.
+(* C16 (automata part) — "Printing an object and parsing the text returns the same object: for every DFA, NFA, PDA and
+   Turing machine over single-character symbols with a printable epsilon / blank symbol, parsing the printed text
+   yields an automaton with identical states, alphabets, transitions, initial and accepting / halting states."
+
+   Token-level models: Model/Printer.v (print_dfa / print_nfa / print_pda / print_tm; `ord`, `ordP` stand for
+   sorted(...): ANY functions returning a permutation of their argument) and Model/Parser.v (parse_dfa / parse_nfa /
+   parse_pda / parse_tm).  The re-parsed object is equal to the printed one as sets, field by field
+   (Proofs/ParserProofs.v):
+     tdfa_equiv : seteq Q, Sigma, delta, F; equal lookup in delta; equal q0
+     tnfa_equiv : seteq Q, Sigma, F; equal q0, epsilon; the same transition relation
+                  tn_step N p a q := exists s, lookup (p, a) (tnD N) = Some s /\ In q s
+                  (a key whose target set is empty prints nothing and disappears: C16_nfa_empty_target_key_vanishes)
+     tpda_equiv : seteq Q, Sigma, Gamma, delta, F; equal q0, epsilon
+     ttm_equiv  : seteq Q, Sigma, Gamma; equal lookup in delta; equal q0, accept, reject, blank
+   Side conditions (each is needed, see the witnesses at the end):
+     - the object satisfies its class invariant (t*_wf_b), state lists and accepting sets are duplicate-free
+       (a repeated name is rejected by the parser), delta of a DFA / NFA / TM is a dict (unique keys);
+     - every state name matches \w+ (re_word; in particular it does not start with '%');
+     - every state that is the SOURCE of a printed transition is not one of states / final / initial / a keyword of the
+       format — for parse_dfa ALL seven keywords of the four formats (kw_dfa), because parse_dfa passes no keyword
+       set; target-only states such as the default halting states `accept` / `reject` of a TM are unrestricted;
+     - DFA / NFA input symbols match \w+ (they may be longer than one character), the NFA epsilon is a non-empty word;
+     - PDA input symbols and epsilon are single \w characters, stack symbols single characters of the label class;
+       TM tape symbols (incl. blank) are single characters of the TM label class.
+   The regular-expression and grammar parts of C16 are handled by the correspondence harness / other files. *)
+From Coq Require Import Permutation.
+From GT Require Import Base.Prelude Model.Tokens Model.Parser Model.Printer Proofs.ParserProofs.
+
+Theorem C16_print_parse_dfa : forall (ord : list token -> list token) (ordP : list (token * token) -> list (token * token)),
+  (forall l, Permutation (ord l) l) -> (forall l, Permutation (ordP l) l) ->
+  forall D : tdfa,
+    tdfa_wf_b D = true -> NoDup (tdQ D) -> NoDup (tdF D) -> NoDup (map fst (tdD D)) ->
+    (forall q, In q (tdQ D) -> re_word q = true) ->
+    (forall p a q, In ((p, a), q) (tdD D) -> is_reserved kw_dfa p = false) ->
+    (forall a, In a (tdS D) -> re_word a = true) ->
+    exists D', parse_dfa (print_dfa ord ordP D) = Some D' /\ tdfa_equiv D D'.
+Proof. exact print_parse_dfa. Qed.
+
+Theorem C16_print_parse_nfa : forall (ord : list token -> list token) (ordP : list (token * token) -> list (token * token)),
+  (forall l, Permutation (ord l) l) -> (forall l, Permutation (ordP l) l) ->
+  forall N : tnfa,
+    tnfa_wf_b N = true -> NoDup (tnQ N) -> NoDup (tnF N) -> NoDup (map fst (tnD N)) ->
+    (forall q, In q (tnQ N) -> re_word q = true) ->
+    (forall p a s, In ((p, a), s) (tnD N) -> s <> [] -> is_reserved kw_nfa p = false) ->
+    (forall a, In a (tnS N) -> re_word a = true) -> tneps N <> [] ->
+    exists N', parse_nfa (print_nfa ord ordP N) = Some N' /\ tnfa_equiv N N'.
+Proof. exact print_parse_nfa. Qed.
+
+Theorem C16_print_parse_pda : forall (ord : list token -> list token) (ordP : list (token * token) -> list (token * token)),
+  (forall l, Permutation (ord l) l) -> (forall l, Permutation (ordP l) l) ->
+  forall P : tpda,
+    tpda_wf_b P = true -> NoDup (tpQ P) -> NoDup (tpF P) ->
+    (forall q, In q (tpQ P) -> re_word q = true) ->
+    (forall p a u q v, In (p, a, u, q, v) (tpD P) -> is_reserved kw_pda p = false) ->
+    (forall a, In a (tpS P) -> single_w a) -> (forall u, In u (tpG P) -> single_sym u) -> single_w (tpeps P) ->
+    exists P', parse_pda (print_pda ord ordP P) = Some P' /\ tpda_equiv P P'.
+Proof. exact print_parse_pda. Qed.
+
+Theorem C16_print_parse_tm : forall (ord : list token -> list token) (ordP : list (token * token) -> list (token * token)),
+  (forall l, Permutation (ord l) l) -> (forall l, Permutation (ordP l) l) ->
+  forall T : ttm,
+    ttm_wf_b T = true -> NoDup (ttQ T) -> NoDup (map fst (ttD T)) ->
+    (forall q, In q (ttQ T) -> re_word q = true) ->
+    (forall p a v, In ((p, a), v) (ttD T) -> is_reserved kw_tm p = false) ->
+    (forall g, In g (ttG T) -> single_tm g) ->
+    exists T', parse_tm (print_tm ord ordP T) = Some T' /\ ttm_equiv T T'.
+Proof. exact print_parse_tm. Qed.
+
+(* the printed transition lines carry exactly the transitions (a permutation), whatever the order of the pairs *)
+Theorem C16_regroup_perm : forall ordP : list (token * token) -> list (token * token),
+  (forall l, Permutation (ordP l) l) -> forall trs, Permutation (regroup ordP trs) trs.
+Proof. exact regroup_perm. Qed.
+
+(* state names matching \w+ never start a comment *)
+Theorem C16_re_word_not_percent : forall q, re_word q = true -> starts_percent q = false.
+Proof. exact re_word_not_percent. Qed.
+
+(* ---- witnesses: the side conditions are needed ---- *)
+Require Coq.Strings.String.
+Module C16_witness.
+  Import Coq.Strings.String.
+  Local Open Scope string_scope.
+  Import ParserExamples.
+
+  Theorem C16_dfa_keyword_state_rejected :
+    let D := mkTDFA [tok "blank"] [tok "a"] [((tok "blank", tok "a"), tok "blank")] (tok "blank") [] in
+    tdfa_wf_b D = true /\ parse_dfa (print_dfa idT idP D) = None.
+  Proof. exact dfa_keyword_state_rejected. Qed.
+
+  Theorem C16_nfa_other_keyword_state_ok :
+    let N := mkTNFA [tok "blank"] [tok "a"] [((tok "blank", tok "a"), [tok "blank"])] (tok "blank") [] (tok "_") in
+    tnfa_wf_b N = true /\ parse_nfa (print_nfa idT idP N) = Some N.
+  Proof. exact nfa_other_keyword_state_ok. Qed.
+
+  Theorem C16_nfa_keyword_state_rejected :
+    let N := mkTNFA [tok "epsilon"] [tok "a"] [((tok "epsilon", tok "a"), [tok "epsilon"])] (tok "epsilon") [] (tok "_") in
+    tnfa_wf_b N = true /\ parse_nfa (print_nfa idT idP N) = None.
+  Proof. exact nfa_keyword_state_rejected. Qed.
+
+  Theorem C16_tm_default_halting_names_ok :
+    let T := mkTTM [tok "p"; tok "accept"; tok "reject"] [tok "a"] [tok "a"; tok "_"]
+               [((tok "p", tok "a"), (tok "accept", tok "a", true)); ((tok "p", tok "_"), (tok "reject", tok "a", false))]
+               (tok "p") (tok "accept") (tok "reject") (tok "_") in
+    ttm_wf_b T = true /\ parse_tm (print_tm idT idP T) = Some T.
+  Proof. exact tm_default_halting_names_ok. Qed.
+
+  Theorem C16_nfa_empty_target_key_vanishes :
+    let N := mkTNFA [tok "p"] [tok "a"] [((tok "p", tok "a"), [])] (tok "p") [] (tok "_") in
+    tnfa_wf_b N = true /\ option_map tnD (parse_nfa (print_nfa idT idP N)) = Some [].
+  Proof. exact nfa_empty_target_key_vanishes. Qed.
+
+  Theorem C16_dfa_duplicate_final_rejected :
+    let D := mkTDFA [tok "p"] [] [] (tok "p") [tok "p"; tok "p"] in
+    tdfa_wf_b D = true /\ parse_dfa (print_dfa idT idP D) = None.
+  Proof. exact dfa_duplicate_final_rejected. Qed.
+
+  Theorem C16_tm_duplicate_key_differs :
+    let T := mkTTM [tok "p"; tok "qa"; tok "qr"] [tok "a"] [tok "a"; tok "_"]
+               [((tok "p", tok "a"), (tok "qa", tok "a", true)); ((tok "p", tok "a"), (tok "qr", tok "a", false))]
+               (tok "p") (tok "qa") (tok "qr") (tok "_") in
+    ttm_wf_b T = true /\
+    option_map (fun T' => lookup (tok "p", tok "a") (ttD T')) (parse_tm (print_tm idT idP T)) = Some (Some (tok "qr", tok "a", false)) /\
+    lookup (tok "p", tok "a") (ttD T) = Some (tok "qa", tok "a", true).
+  Proof. exact tm_duplicate_key_differs. Qed.
+
+  Theorem C16_pda_long_stack_symbol_rejected :
+    let P := mkTPDA [tok "p"] [tok "a"] [tok "XY"] [(tok "p", tok "a", tok "XY", tok "p", tok "_")] (tok "p") [] (tok "_") in
+    tpda_wf_b P = true /\ parse_pda (print_pda idT idP P) = None.
+  Proof. exact pda_long_stack_symbol_rejected. Qed.
+
+  Theorem C16_dfa_long_symbol_ok :
+    let D := mkTDFA [tok "p"] [tok "ab"] [((tok "p", tok "ab"), tok "p")] (tok "p") [] in
+    parse_dfa (print_dfa idT idP D) = Some D.
+  Proof. exact dfa_long_symbol_ok. Qed.
+End C16_witness.
+
+Print Assumptions C16_print_parse_dfa.
+Print Assumptions C16_print_parse_nfa.
+Print Assumptions C16_print_parse_pda.
+Print Assumptions C16_print_parse_tm.
+Print Assumptions C16_regroup_perm.
+Print Assumptions C16_re_word_not_percent.
+Print Assumptions C16_witness.C16_dfa_keyword_state_rejected.
+Print Assumptions C16_witness.C16_nfa_other_keyword_state_ok.
+Print Assumptions C16_witness.C16_nfa_keyword_state_rejected.
+Print Assumptions C16_witness.C16_tm_default_halting_names_ok.
+Print Assumptions C16_witness.C16_nfa_empty_target_key_vanishes.
+Print Assumptions C16_witness.C16_dfa_duplicate_final_rejected.
+Print Assumptions C16_witness.C16_tm_duplicate_key_differs.
+Print Assumptions C16_witness.C16_pda_long_stack_symbol_rejected.
+Print Assumptions C16_witness.C16_dfa_long_symbol_ok.
